@@ -305,6 +305,10 @@ class BaseWSGIServer(wasyncore.dispatcher):
                 return
             conn, addr = v
             self.set_socket_options(conn)
+            addr = self.fix_addr(addr)
+            # constructing the channel asks the new socket for its options and
+            # makes it non-blocking, which fails the same way
+            self.channel_class(self, conn, addr, self.adj, map=self._map)
         except OSError:
             # Linux: On rare occasions we get a bogus socket back from
             # accept.  socketmodule.c:makesockaddr complains that the
@@ -317,8 +321,6 @@ class BaseWSGIServer(wasyncore.dispatcher):
             if self.adj.log_socket_errors:
                 self.logger.warning("server accept() threw an exception", exc_info=True)
             return
-        addr = self.fix_addr(addr)
-        self.channel_class(self, conn, addr, self.adj, map=self._map)
 
     def run(self):
         try:
